@@ -340,6 +340,8 @@ def aggregate(agg, group, name, name_given=True):
     if agg == 'last':
         return nn[-1]
     if agg == 'any':
+        if all(type(v) is type(nn[0]) and v == nn[0] for v in nn):
+            return nn[0]        # a single candidate value: no ambiguity
         return AnyOf(nn)
     raise KeyError(agg)
 
